@@ -17,6 +17,9 @@ import SpsdkVerif.Generated.MbootConsts
 import SpsdkVerif.Proofs.Mboot
 import SpsdkVerif.Proofs.MbootFault
 import SpsdkVerif.Proofs.MbootRefine
+import SpsdkVerif.Model.Sdp
+import SpsdkVerif.Generated.SdpConsts
+import SpsdkVerif.Proofs.Sdp
 
 namespace SpsdkVerif.C10
 open SpsdkVerif SpsdkVerif.Mboot SpsdkVerif.Mboot.Fault
@@ -359,6 +362,43 @@ theorem no_fault_refines (ops : List Op) (h : Host) (d d' : Dev) (rs : List (Exc
         refine ⟨h'', ?_, s2⟩
         simp only [runOps, e1, e2, st1]
 
+/-! ## 7. SDP over the serial protocol (thin layer; Model/Sdp.lean) -/
+
+theorem gen_sdp_constants_agree :
+    Generated.SdpConsts.commandTags =
+      [("READ_REGISTER", Sdp.Spec.cReadRegister), ("WRITE_REGISTER", Sdp.Spec.cWriteRegister), ("WRITE_FILE", Sdp.Spec.cWriteFile),
+       ("ERROR_STATUS", Sdp.Spec.cErrorStatus), ("WRITE_CSF", Sdp.Spec.cWriteCsf), ("WRITE_DCD", Sdp.Spec.cWriteDcd),
+       ("SKIP_DCD_HEADER", Sdp.Spec.cSkipDcdHeader), ("JUMP_ADDRESS", Sdp.Spec.cJumpAddress), ("SET_BAUDRATE", 0x0D0D), ("PING", 0x5AA6)] ∧
+    Generated.SdpConsts.responseValues =
+      [("WRITE_DATA_OK", Sdp.Spec.rWriteDataOk), ("WRITE_FILE_OK", Sdp.Spec.rWriteFileOk),
+       ("SKIP_DCD_HEADER_OK", Sdp.Spec.rSkipDcdHeaderOk), ("LOCKED", Sdp.Spec.rLocked), ("UNLOCKED", Sdp.Spec.rUnlocked),
+       ("HAB_SUCCESS", 0xF0F0F0F0), ("BAUDRATE_SET", 0x09D00D90)] ∧
+    Generated.SdpConsts.statusCodes =
+      [("SUCCESS", Sdp.Spec.stSuccess), ("CMD_FAILURE", 1), ("HAB_IS_LOCKED", Sdp.Spec.stHabIsLocked), ("READ_DATA_FAILURE", 10),
+       ("WRITE_REGISTER_FAILURE", Sdp.Spec.stWriteRegisterFailure), ("WRITE_IMAGE_FAILURE", Sdp.Spec.stWriteImageFailure),
+       ("WRITE_DCD_FAILURE", Sdp.Spec.stWriteDcdFailure), ("WRITE_CSF_FAILURE", Sdp.Spec.stWriteCsfFailure),
+       ("SKIP_DCD_HEADER_FAILURE", Sdp.Spec.stSkipDcdHeaderFailure)] ∧
+    Generated.SdpConsts.cmdPacketEndian = "big" ∧ Generated.SdpConsts.cmdPacketWidths = [2, 4, 1, 4, 4, 1] ∧
+    Generated.SdpConsts.readBlock = Sdp.Spec.maxRead := by decide
+
+/-- the 16-byte SDP command packet (`">HIB2IB"`) is decoded by the ROM to the same fields -/
+theorem sdp_cmd_roundtrip (c : Sdp.Cmd) (h : c.fits) : Sdp.parseCmd c.encode = some c ∧ c.encode.length = 16 :=
+  ⟨Sdp.cmd_roundtrip' c h, Sdp.encode_length c⟩
+
+/-- missing response / stream cut off: on a silent link every SDP operation raises SdpConnectionError -/
+theorem sdp_silent_link_raises (h : Sdp.Host) (op : Sdp.Op) (hs : Sdp.Silent h) : (Sdp.runOp op h).1 = .error .conn :=
+  Sdp.runOp_silent h op hs
+
+/-- device error status: `write` / `skip_dcd` report `True` only if the status word read is the OK value -/
+theorem sdp_true_needs_ok_status (st okv failSt : Nat) (h h' : Sdp.Host)
+    (hr : Sdp.statusTail st okv failSt h = (.ok (.bool true), h')) : st = okv :=
+  Sdp.statusTail_true st okv failSt h h' hr
+
+/-- bytes read are returned completely: whatever the stream, `_read_data` returns exactly `length` bytes or raises -/
+theorem sdp_read_data_complete (length : Nat) (d : Bytes) (h h' : Sdp.Host)
+    (hr : Sdp.readData length h = (.ok d, h')) : d.length = length :=
+  Sdp.readDataLoop_length length (length + 1) [] d h h' hr
+
 /-! ## non-vacuity and sanity examples -/
 
 /-- a concrete device / host pair satisfying every hypothesis of the refinement theorems, and a history on it -/
@@ -378,5 +418,9 @@ example : Corrupted Spec.fData [1, 2, 3] Spec.fData (frameCrc Spec.fData [1, 2, 
 example : Starved { peer := .script [[[]], []] } := ⟨rfl, by simp, by simp [Peer.silent]⟩
 example : (⟨Spec.cWriteMemory, 1, [0x20000000, 512, 0]⟩ : CmdPkt).WF := ⟨by decide, by decide, by decide, by decide⟩
 example : split 4 [1, 2, 3, 4, 5, 6, 7, 8, 9] = [[1, 2, 3, 4], [5, 6, 7, 8], [9]] := by decide
+example : (⟨Sdp.Spec.cReadRegister, 0x20000000, 32, 4, 0⟩ : Sdp.Cmd).fits := by decide
+example : (⟨Sdp.Spec.cReadRegister, 0x20000000, 32, 4, 0⟩ : Sdp.Cmd).encode =
+    [0x01, 0x01, 0x20, 0, 0, 0, 0x20, 0, 0, 0, 4, 0, 0, 0, 0, 0] := by decide
+example : Sdp.Silent {} := ⟨rfl, [], rfl, by simp⟩
 
 end SpsdkVerif.C10
